@@ -29,6 +29,8 @@ type Net struct {
 	// DropResponse, if it returns true, lets the handler run to completion but
 	// fails the client's round trip (a lost reply).
 	DropResponse func(from, to string, r *http.Request) bool
+	// Spawn, if set, starts the handler goroutine (the schedule engine uses it to attribute the handler to the calling thread).
+	Spawn func(fn func())
 }
 
 func NewNet() *Net {
@@ -202,7 +204,11 @@ func (t *transport) RoundTrip(req *http.Request) (*http.Response, error) {
 	}
 	rw := &respWriter{hdr: http.Header{}, ready: make(chan struct{}), w: w}
 	finished := make(chan struct{})
-	go func() {
+	spawn := n.Spawn
+	if spawn == nil {
+		spawn = func(fn func()) { go fn() }
+	}
+	spawn(func() {
 		defer close(finished)
 		defer func() {
 			if r := recover(); r != nil {
@@ -224,7 +230,7 @@ func (t *transport) RoundTrip(req *http.Request) (*http.Response, error) {
 		if n.OnDone != nil {
 			n.OnDone(t.from, to, sreq)
 		}
-	}()
+	})
 
 	drop := n.DropResponse != nil && n.DropResponse(t.from, to, sreq)
 	if drop {
